@@ -13,6 +13,8 @@ mod c11;
 mod remote;
 mod c13;
 mod c19;
+mod cxxharness;
+mod c14;
 mod backhalf;
 pub mod compile;
 
@@ -109,6 +111,7 @@ fn main() {
                 "C11" => c11::run(&tier, seed),
                 "C13" => c13::run(&tier, seed),
                 "C19" => c19::run(&tier, seed),
+                "C14" => c14::run(&tier, seed),
                 _ => {
                     eprintln!("unknown property {prop}");
                     2
